@@ -241,47 +241,42 @@ func runC20(c *kit.Ctx) {
 		c.Check(okRet, dial, "dial-result", dial.Pos(), "Dial returns an error only on the closed done channel", "Dial returns an error not derived from the done channel")
 	}
 
+	// the cache recognises a connection by comparing the address it is asked for with Addr() of the
+	// connections it holds: Addr() must give back, byte for byte, the address the connection was made for
+	{
+		addrF := p.Field("region", "client", "addr")
+		addrFn := p.Func("region", "client", "Addr")
+		newC := p.Func("region", "", "NewClient")
+		if addrF == nil || addrFn == nil || newC == nil {
+			c.Unk(nil, "address-identity", token.NoPos, "region.client.addr / Addr / NewClient not found")
+		} else {
+			kit.Instrs(addrFn, func(in ssa.Instruction) {
+				if r, ok := in.(*ssa.Return); ok {
+					c.Check(isLoadOfField(r.Results[0], addrF), addrFn, "address-identity", r.Pos(), "Addr() returns the addr field", "Addr() no longer returns the stored address")
+				}
+			})
+			n := 0
+			for _, a := range p.FieldAccesses(addrF) {
+				st, ok := a.Instr.(*ssa.Store)
+				if !a.Write || !ok {
+					continue
+				}
+				n++
+				par, isPar := kit.Root(st.Val).(*ssa.Parameter)
+				c.Check(isPar && a.Fn == newC && par.Type().String() == "string", a.Fn, "address-identity", st.Pos(), "addr is NewClient's address parameter, unchanged",
+					"the address a connection remembers is not the address it was created for, unchanged (normalised, resolved, re-formatted...): the cache compares the requested address with Addr() for equality, so for addresses the transformation changes it never finds the existing connection and every region gets its own connection")
+			}
+			if n == 0 {
+				c.Unk(newC, "address-identity", newC.Pos(), "no store to region.client.addr found")
+			}
+		}
+	}
+
 	// ---- R3 -----------------------------------------------------------------
 	c.StartRule("R3", "cache entries are removed only on the declared-dead path", 5)
-	for _, a := range p.FieldAccesses(regionsField) {
-		if a.Kind != "map-delete" && a.Kind != "store" {
-			continue
-		}
-		if a.Kind == "store" && kit.FreshObject(a.Instr) {
-			c.OK(a.Fn, "cache-init", a.Instr.Pos(), "initialisation of a fresh cache object")
-			continue
-		}
-		// which delete: delete(rcc.regions, c) (outer map)
-		c.Check(a.Fn == rccDown, a.Fn, "cache-delete", posOf(a.Instr), "connection removed from the cache in clientRegionCache.clientDown",
-			"connection removed from (or cache map replaced in) the cache outside clientRegionCache.clientDown: a live connection can be forgotten and a second one opened")
-	}
-	for _, s := range callersOf(p, kit.M("", "*clientRegionCache", "clientDown")) {
-		c.Check(s.Parent() == cDown, s.Parent(), "caller-of-cache-clientDown", s.Pos(), "called from client.clientDown", "unexpected caller of clientRegionCache.clientDown")
-	}
-	serverErr := p.Named("region", "ServerError")
-	for _, s := range callersOf(p, kit.M("", "*client", "clientDown")) {
-		fn := s.Parent()
-		switch fn {
-		case hre, est:
-			if _, ok := typeAssertEdge(s.Block(), serverErr); ok {
-				c.OK(fn, "declared-dead", s.Pos(), "on the success edge of a type assertion to region.ServerError")
-				continue
-			}
-			// failed dial in establishRegion
-			ok := false
-			for _, f := range kit.FactsAt(s.Block()) {
-				if cmp, isCmp := kit.CanonCmp(f.Cond, f.Pol); isCmp && cmp.Op == token.NEQ && kit.IsNilConst(cmp.Y) {
-					if call, isCall := kit.Root(cmp.X).(*ssa.Call); isCall && kit.CalleeName(call) == hrpcRC+"Dial" {
-						ok = true
-					}
-				}
-			}
-			c.Check(ok && fn == est, fn, "declared-dead", s.Pos(), "on the edge where Dial of this connection returned an error",
-				"client.clientDown called where neither a ServerError nor a failed dial was observed")
-		default:
-			c.Bad(fn, "declared-dead", s.Pos(), "unexpected caller of client.clientDown: connections may be dropped from the cache while healthy", "")
-		}
-	}
+	cacheEntriesLeaveOnlyWhenDead(c)
+	clientDownOnlyWhenDead(c, hre, est)
+	deadConnectionIsTheFailedOne(c)
 
 	// ---- R4 -----------------------------------------------------------------
 	c.StartRule("R4", "regions get their connection from the cache", 5)
@@ -326,5 +321,32 @@ func runC20(c *kit.Ctx) {
 			c.Check(ok, fn, "set-client", s.Pos(), "connection attached in establishRegion comes from clientRegionCache.put (or the tabled admin factory call)",
 				"a connection that did not come out of the cache is attached to a region")
 		}
+	}
+}
+
+// cacheEntriesLeaveOnlyWhenDead: shared by C20.R3 and C19.R2 (closeAll closes what the cache holds).
+func cacheEntriesLeaveOnlyWhenDead(c *kit.Ctx) {
+	p := c.P
+	regionsField := p.Field("", "clientRegionCache", "regions")
+	rccDown := p.Func("", "clientRegionCache", "clientDown")
+	cDown := p.Func("", "client", "clientDown")
+	if regionsField == nil || rccDown == nil || cDown == nil {
+		c.Unk(nil, "cache-delete", token.NoPos, "clientRegionCache.regions / clientDown not found")
+		return
+	}
+	for _, a := range p.FieldAccesses(regionsField) {
+		if a.Kind != "map-delete" && a.Kind != "store" {
+			continue
+		}
+		if a.Kind == "store" && kit.FreshObject(a.Instr) {
+			c.OK(a.Fn, "cache-init", a.Instr.Pos(), "initialisation of a fresh cache object")
+			continue
+		}
+		// which delete: delete(rcc.regions, c) (outer map)
+		c.Check(a.Fn == rccDown, a.Fn, "cache-delete", posOf(a.Instr), "connection removed from the cache in clientRegionCache.clientDown",
+			"connection removed from (or cache map replaced in) the cache outside clientRegionCache.clientDown: a live connection can be forgotten and a second one opened")
+	}
+	for _, s := range callersOf(p, kit.M("", "*clientRegionCache", "clientDown")) {
+		c.Check(s.Parent() == cDown, s.Parent(), "caller-of-cache-clientDown", s.Pos(), "called from client.clientDown", "unexpected caller of clientRegionCache.clientDown")
 	}
 }
